@@ -119,38 +119,50 @@ pub fn spec_key(sp: &SysSpec) -> String {
     v.to_string()
 }
 
-/// S1 + S3(3) of every skeleton (thorough: + S2(4)), the hand-built shapes and the array-input
-/// system; structurally identical specs are listed once.
+/// quick: S1 (full pools) + S3(3) of every skeleton; thorough: S1 + S3(4) + S2(32) + S3(5) of
+/// the six-slot skeletons K1/K3/K4/K7; plus the
+/// hand-built shapes (2-bit registers) and the array-input system. Structurally identical specs
+/// are listed once (first occurrence wins, order = hand-built, S1 per skeleton, S3, S2).
 pub fn system_family(tier: Tier, divrem: bool) -> Vec<SysSpec> {
-    let mut out: Vec<SysSpec> = vec![];
-    let mut seen: FxHashSet<String> = FxHashSet::default();
-    let mut push = |sp: SysSpec, out: &mut Vec<SysSpec>| {
-        if seen.insert(spec_key(&sp)) {
-            out.push(sp);
-        }
-    };
-    for sp in hand_systems(2) {
-        push(sp, &mut out);
-    }
-    push(array_input_system(), &mut out);
+    use rayon::prelude::*;
+    let mut jobs: Vec<(&str, u8)> = vec![];
     for name in SKELETONS {
-        let k = skeleton_generated(name, divrem);
-        for sp in k.s1() {
-            push(sp, &mut out);
-        }
+        jobs.push((name, 1));
     }
     for name in SKELETONS {
-        let k = skeleton_generated(name, divrem);
-        for sp in k.s3(3) {
-            push(sp, &mut out);
-        }
+        jobs.push((name, 3));
     }
     if tier.is_thorough() {
         for name in SKELETONS {
+            jobs.push((name, 2));
+        }
+        for name in ["K1", "K3", "K4", "K7"] {
+            jobs.push((name, 5));
+        }
+    }
+    let lists: Vec<Vec<(SysSpec, String)>> = jobs
+        .par_iter()
+        .map(|(name, sweep)| {
             let k = skeleton_generated(name, divrem);
-            for sp in k.s2(4) {
-                push(sp, &mut out);
-            }
+            let v = match sweep {
+                1 => k.s1(),
+                3 => k.s3(if tier.is_thorough() { 4 } else { 3 }),
+                5 => k.s3(5),
+                _ => k.s2(32),
+            };
+            v.into_par_iter().map(|sp| { let key = spec_key(&sp); (sp, key) }).collect()
+        })
+        .collect();
+    let mut out: Vec<SysSpec> = vec![];
+    let mut seen: FxHashSet<String> = FxHashSet::default();
+    for sp in hand_systems(2).into_iter().chain(std::iter::once(array_input_system())) {
+        if seen.insert(spec_key(&sp)) {
+            out.push(sp);
+        }
+    }
+    for (sp, key) in lists.into_iter().flatten() {
+        if seen.insert(key) {
+            out.push(sp);
         }
     }
     out
